@@ -173,7 +173,7 @@ func genCloseSpec(seed uint64, tier string) *spec.RunSpec {
 func init() {
 	register(&propDef{
 		id: "C15", level: "exploration", quickRuns: 96, thoroughRuns: 4000, wallPerRun: 5 * time.Minute, race: true,
-		rule:        "1-4 sessions on 1-2 real clients and a real server (TCP or UDP); independent actor goroutines at both ends issue Write, Read, SetDeadline/SetReadDeadline and Close concurrently; profiles: plain close (once, twice, both sides, after idle periods on both sides of the 5 s housekeeping tick), back-pressure (the peer application stops reading, the local writer fills every queue, then Close), deadline sequences around multi-call reads, client Stop / server Stop at a chosen instant, abrupt underlay failure (TCP reset, TCP black-hole, UDP black-hole). Oracles over the recorded calls: every Close/Stop returns within 10 s + 2 s x sessions; every call blocked on an affected connection returns within that bound after the close/stop/reset (3 min after a silent black-hole); a deadline set before a call bounds that call and every later one until changed, and nothing but a user deadline times a call out; 5 virtual minutes after both ends are stopped no goroutine outside the harness runs mieru code; the virtual-time cap firing with everything blocked is a deadlock; a quarter of the runs are repeated under the race detector.",
+		rule:        "1-4 sessions on 1-2 real clients and a real server (TCP or UDP); independent actor goroutines at both ends issue Write, Read, SetDeadline/SetReadDeadline and Close concurrently; profiles: plain close (once, twice, both sides, after idle periods on both sides of the 5 s housekeeping tick), back-pressure (the peer application stops reading, the local writer fills every queue, then Close), deadline sequences around multi-call reads, client Stop / server Stop at a chosen instant, abrupt underlay failure (TCP reset, TCP black-hole, UDP black-hole). Oracles over the recorded calls: every Close/Stop returns within 10 s + 2 s x sessions; every call blocked on an affected connection returns within that bound after the close/stop/reset (3 min after a silent black-hole); a deadline set before a call bounds that call and every later one until changed, and nothing but a user deadline times a call out; 5 virtual minutes after both ends are stopped no goroutine outside the harness runs mieru code; the virtual-time cap firing with everything blocked is a deadlock; a quarter of the runs are repeated under the race detector. Profile backpressure-stop: the writer is blocked on a peer that stopped reading when a client Stop, server Stop or TCP reset arrives. Half of the stop-profile events land inside a dial in flight (1..4 latencies after a session starts).",
 		assumptions: []string{"races are found by the race detector's happens-before analysis of single-P schedules, not by true parallelism", "Stop is expected to end established sessions' activity (the goroutine check runs after both Stop calls)"},
 		components:  realComponents,
 		gen: func(master uint64, idx int, tier string) *spec.RunSpec {
